@@ -104,6 +104,8 @@ func c01Property(rt *rapid.T, ev *evid.Rec, o machineOpts, faults bool) {
 	fail := func(f string, a ...any) {
 		rt.Fatalf("VERIF-VIOLATION property=C01 %s\n history:\n   %s", fmt.Sprintf(f, a...), m.History())
 	}
+	// oracle (a) in every database state another session can observe
+	aud := NewAuditor(w)
 	okSteps, decoyBlocks := 0, false
 	faultBudget := 0
 	if faults {
@@ -119,6 +121,9 @@ func c01Property(rt *rapid.T, ev *evid.Rec, o machineOpts, faults bool) {
 		if v := checkStepC01(m, p, r); v != "" {
 			fail("%s", v)
 		}
+		if v := aud.Violation(); v != "" {
+			fail("%s", v)
+		}
 		if r.Err == nil {
 			okSteps++
 			if v := w.CheckPair(p); v != "" {
@@ -126,7 +131,7 @@ func c01Property(rt *rapid.T, ev *evid.Rec, o machineOpts, faults bool) {
 			}
 		}
 	}
-	nsteps := rapid.IntRange(2, 14).Draw(rt, "nactions")
+	nsteps := rapid.IntRange(2, scale(14, 40)).Draw(rt, "nactions")
 	for i := 0; i < nsteps; i++ {
 		switch rapid.IntRange(0, 9).Draw(rt, "action") {
 		case 0, 1, 2:
